@@ -17,6 +17,7 @@ import Driver.Cli
 import Driver.Mml
 import Driver.Link
 import Driver.MdDrv
+import Driver.Layout
 open Driver
 
 def allHandlers : List Handler :=
@@ -34,6 +35,7 @@ def allHandlers : List Handler :=
   ++ MmlD.handlers
   ++ LinkD.handlers
   ++ MdDrvD.handlers
+  ++ LayoutD.handlers
 
 def answerModel (cmd arg : String) : String :=
   match allHandlers.find? (·.cmd == cmd) with
